@@ -4,3 +4,5 @@ import CoreBGP.Model.Packet
 import CoreBGP.Model.Reader
 import CoreBGP.Spec.Wire
 import CoreBGP.Props.C15
+import CoreBGP.Model.Update
+import CoreBGP.Spec.Update
